@@ -2,7 +2,10 @@ use std::io;
 
 use crate::PersistAction;
 
+#[cfg(not(mrecordlog_verif_tiny))]
 pub const BLOCK_NUM_BYTES: usize = 32_768;
+#[cfg(mrecordlog_verif_tiny)]
+pub const BLOCK_NUM_BYTES: usize = 64;
 
 pub trait BlockRead {
     /// Loads the next block.
